@@ -1314,6 +1314,13 @@ func (r *Raft) RequestVote(request *RequestVoteRequest, response *RequestVoteRes
 		r.lastContact = time.Now()
 		r.votedFor = request.CandidateID
 		r.persistTermAndVote()
+
+		// A node that votes for another candidate gives up its own campaign. In particular, a
+		// prevote that it has won is void: it must win another one before it increments its term.
+		if r.state == PreCandidate || r.state == Candidate {
+			r.state = Follower
+			r.prevoteWon = false
+		}
 	}
 
 	r.logger.Infof(
